@@ -1,4 +1,5 @@
 import PyYetiVerif.Model.Srs
+import PyYetiVerif.Model.SrsExt
 import PyYetiVerif.Generated.SrsCoef
 /-! Line protocol for C03.  Floats travel as decimal `UInt64` bit patterns.
 
@@ -11,6 +12,17 @@ request                                                          reply
 `tail <stype> <ic> <peak> <time> <eqsine> Q sr <nf> f… f s1 <0|1> icv x…`  same, after `_process_ic` and roll-off
 `vrs Q fn f0 psd0 f1 psd1 …`                                       `z` or `none`
 `nz sr <nf> f…`                                                  `<nzeros>`
+`exact0 <stype> Q dT x…`                                         `y…`      (rigid oscillator, wn = 0, closed form)
+`steady <stype> Q dT wn c x…`                                    `y…`      (closed form started in steady state under c)
+`xcol <stype> <ic> <peak> <time> <eqsine> Q sr <nf> f… f x…`     `pk h…` or `none`  (filter-free specification exactCol)
+`xcol0 <stype> <ic> <peak> <time> <eqsine> Q sr <nf> f… x…`      `pk h…` or `none`  (0 Hz specification exactCol0)
+`resid <stype> Q sr <nf> f… f x…`                                `h…`      (closed-form free decay after the record, ic = zero)
+`idx <roll> <time> ppc sr <nf> f… n`                             `sr' M N S first count` or `none`
+`rolled <stype> <ic> <peak> <time> <eqsine> <roll> ppc Q sr <nf> f… f <n> x… up…`   `pk h…` or `none`
+                                                                 (`up…` = output of the real resampler, used iff the model decides to resample)
+`grid <nfreq> f… fn…`                                            merged grid
+`wts f…`                                                         area weights
+`miles Q fn psd`                                                 Miles' value
 anything else → `bad-op` -/
 open PyYetiVerif.Srs
 
@@ -30,6 +42,10 @@ def parsePeak : String → Option Peak
   | "negs" => some .negs | "rms" => some .rms | _ => none
 def parseTime : String → Option Time
   | "primary" => some .primary | "total" => some .total | "residual" => some .residual | _ => none
+
+def parseRoll : String → Option Roll
+  | "none" => some .none | "linear" => some .linear | "fft" => some .fft
+  | "lanczos" => some .lanczos | "prefilter" => some .prefilter | _ => none
 
 def genCoef : SType → Float → Float → Float → Coef Float
   | .absacce => PyYetiVerif.Generated.SrsCoef.absacce
@@ -97,6 +113,82 @@ def answer (line : String) : String :=
         match vrsOne q fn (pairs xs) with
         | some z => pure (fmtF z)
         | none => pure "none"
+    | "exact0" :: st :: q :: dt :: xs => do
+        let st ← parseSType st; let q ← parseF q; let dt ← parseF dt
+        let xs ← parseFs xs
+        pure (fmtFs (rigidResp st q dt xs))
+    | "steady" :: st :: q :: dt :: wn :: c :: xs => do
+        let st ← parseSType st; let q ← parseF q; let dt ← parseF dt; let wn ← parseF wn
+        let c ← parseF c
+        let xs ← parseFs xs
+        pure (fmtFs (steadyResp st q dt wn c xs))
+    | "xcol" :: st :: ic :: pk :: tm :: es :: q :: sr :: nf :: rest => do
+        let st ← parseSType st; let ic ← parseIc ic; let pk ← parsePeak pk; let tm ← parseTime tm
+        let q ← parseF q; let sr ← parseF sr; let nf ← nf.toNat?
+        let fs ← parseFs (rest.take nf)
+        match rest.drop nf with
+        | f :: xs =>
+            let f ← parseF f
+            let xs ← parseFs xs
+            match exactCol ⟨st, ic, pk, tm, es == "1"⟩ q sr fs f xs with
+            | some (h, p) => pure (fmtFs (p :: h))
+            | none => pure "none"
+        | [] => none
+    | "xcol0" :: st :: ic :: pk :: tm :: es :: q :: sr :: nf :: rest => do
+        let st ← parseSType st; let ic ← parseIc ic; let pk ← parsePeak pk; let tm ← parseTime tm
+        let q ← parseF q; let sr ← parseF sr; let nf ← nf.toNat?
+        let fs ← parseFs (rest.take nf)
+        let xs ← parseFs (rest.drop nf)
+        match exactCol0 ⟨st, ic, pk, tm, es == "1"⟩ q sr fs xs with
+        | some (h, p) => pure (fmtFs (p :: h))
+        | none => pure "none"
+    | "resid" :: st :: q :: sr :: nf :: rest => do
+        let st ← parseSType st; let q ← parseF q; let sr ← parseF sr; let nf ← nf.toNat?
+        let fs ← parseFs (rest.take nf)
+        match rest.drop nf with
+        | f :: xs =>
+            let f ← parseF f
+            let xs ← parseFs xs
+            pure (fmtFs (residualExact st (Osc.ofQ q (1 / sr) (2 * TransOps.pi * f)) 0 0 0 xs (nzeros sr fs)))
+        | [] => none
+    | "idx" :: roll :: tm :: ppc :: sr :: nf :: rest => do
+        let roll ← parseRoll roll; let tm ← parseTime tm
+        let ppc ← parseF ppc; let sr ← parseF sr; let nf ← nf.toNat?
+        let fs ← parseFs (rest.take nf)
+        match rest.drop nf with
+        | [n] =>
+            let n ← n.toNat?
+            match srsIndex roll tm ppc sr fs n with
+            | some ix =>
+                let smp := ix.samples tm
+                pure (s!"{fmtF ix.sr} {ix.M} {ix.N} {ix.S} {smp.headD 0} {smp.length}")
+            | none => pure "none"
+        | _ => none
+    | "rolled" :: st :: ic :: pk :: tm :: es :: roll :: ppc :: q :: sr :: nf :: rest => do
+        let st ← parseSType st; let ic ← parseIc ic; let pk ← parsePeak pk; let tm ← parseTime tm
+        let roll ← parseRoll roll
+        let ppc ← parseF ppc; let q ← parseF q; let sr ← parseF sr; let nf ← nf.toNat?
+        let fs ← parseFs (rest.take nf)
+        match rest.drop nf with
+        | f :: n :: rest2 =>
+            let f ← parseF f; let n ← n.toNat?
+            let xs ← parseFs (rest2.take n)
+            let ups ← parseFs (rest2.drop n)
+            match srsRolled ⟨st, ic, pk, tm, es == "1"⟩ roll (fun _ _ => ups) ppc q sr fs f xs with
+            | some (h, p) => pure (fmtFs (p :: h))
+            | none => pure "none"
+        | _ => none
+    | "grid" :: nfreq :: rest => do
+        let nfreq ← nfreq.toNat?
+        let a ← parseFs (rest.take nfreq)
+        let b ← parseFs (rest.drop nfreq)
+        pure (fmtFs (mergeGrid a b))
+    | "wts" :: rest => do
+        let a ← parseFs rest
+        pure (fmtFs (vrsWeights a))
+    | ["miles", q, fn, p] => do
+        let q ← parseF q; let fn ← parseF fn; let p ← parseF p
+        pure (fmtF (milesOne q fn p))
     | "nz" :: sr :: nf :: rest => do
         let sr ← parseF sr; let nf ← nf.toNat?
         let fs ← parseFs (rest.take nf)
